@@ -271,7 +271,7 @@ func c16PipeErrors(p *Prog, r *Report) {
 				return
 			}
 			kd := Desc(lk.Index)
-			if !strings.Contains(kd, "Uint32(") {
+			if !strings.Contains(kd, "Uint32(") && !p.paramFedBy(lk.Index, "Uint32(") {
 				return // not keyed by bytes taken from a message
 			}
 			n++
@@ -341,4 +341,35 @@ func e6dNotOverStrict(p *Prog, r *Report, rule string, sel func(rel string) bool
 		}
 	}
 	r.Count("e6d.min_length_checks", n)
+}
+
+// paramFedBy: v is a parameter of a private function and some static call site in the module
+// passes it a value whose description contains pat (one level: the id decoded from a message
+// in the receiver and handed to a helper that does the lookup).
+func (p *Prog) paramFedBy(v ssa.Value, pat string) bool {
+	par, ok := v.(*ssa.Parameter)
+	if !ok || par.Parent() == nil {
+		return false
+	}
+	fn := par.Parent()
+	idx := -1
+	for i, q := range fn.Params {
+		if q == par {
+			idx = i
+		}
+	}
+	n := p.CG().Nodes[fn]
+	if n == nil || idx < 0 {
+		return false
+	}
+	for _, e := range n.In {
+		if e.Site == nil || e.Site.Common().StaticCallee() != fn {
+			continue
+		}
+		args := e.Site.Common().Args
+		if idx < len(args) && strings.Contains(Desc(args[idx]), pat) {
+			return true
+		}
+	}
+	return false
 }
